@@ -12,9 +12,12 @@ import (
 	"encoding/json"
 	"flag"
 	"fmt"
+	"io"
 	"os"
 	"sort"
 	"strings"
+
+	"github.com/gookit/color"
 )
 
 // Prop is what the harness needs for one property.
@@ -68,6 +71,7 @@ func main() {
 		fmt.Fprintln(os.Stderr, "usage: ruxh run|exec|consts ...")
 		os.Exit(2)
 	}
+	color.SetOutput(io.Discard) // pkg/handlers' console logger prints through gookit/color
 	switch os.Args[1] {
 	case "consts":
 		dumpConsts()
